@@ -123,6 +123,7 @@ func installHook() {
 	sMainG = getg()
 	hook.SleepFunc = sleepHook
 	hook.IsTask = isTaskHook
+	hook.PoolFault = poolFaultHook
 	hook.Hook = yieldHook
 }
 
@@ -323,6 +324,9 @@ func executeRun(s *RunSpec, runIdx int, racePath string) (doneEv, *violEv) {
 	d.Faults["lock_wait"] = int(lockWaits())
 	d.Faults["foreign_goroutine_hook_calls"] = int(foreignCalls())
 	d.Faults["stall"] = int(stall)
+	if hook.PoolSites > 0 {
+		d.Faults["pool_miss_or_drop"] = int(sPoolFaults)
+	}
 	if hook.ClockSites > 0 {
 		d.Faults["clock_jump"] = int(sClkJumps)
 		d.Faults["clock_reads_by_the_tree"] = int(hook.ClockReads)
